@@ -1,3 +1,262 @@
-(* C32 placeholder while the pipeline is brought up; replaced below *)
-From Coq Require Import NArith.
+(* C32 AVM opcodes compute exactly their specified results.
+   Property theorems only: each is closed by [exact <lemma>] and followed by Print Assumptions.
+   Statements: the word-level transcription of the Go opcode functions (model/AvmArith.v:
+   bits.Add64/Mul64/Div64 semantics, explicit mod 2^64, Crenshaw's loop, the exp/expw loops,
+   big.Int SetBytes/Bytes, the 64-byte guard) equals, for ALL operands, the result over
+   unbounded arithmetic -- value and error condition alike.  C32_all_opcodes states this for
+   the whole opcode table at once against the executable specification model/AvmArithSpec.v
+   (the oracle the checker applies to the implementation's observations); the theorems before
+   it restate the opcode families in closed form (grouped: one Print Assumptions walks the
+   whole proof cone, so fewer, larger statements keep the quick tier fast). *)
+From Coq Require Import NArith ZArith List Bool.
+Import ListNotations.
+From Verif.lib Require Import Term.
 From Verif.model Require Import AvmArith AvmArithSpec.
+From Verif.proofs Require Import AvmArithUint AvmArithBytes AvmArithSpecProofs AvmArithSummary.
+Open Scope N_scope.
+
+(* ---------------- uint64 arithmetic ---------------- *)
+(* + - * fail exactly on overflow / underflow; / % exactly on a zero divisor *)
+Theorem C32_basic_arith : forall a b, a < W -> b < W ->
+  opPlus a b = (if a + b <? W then Ok [U (a + b)] else Err) /\
+  opMinus a b = (if b <=? a then Ok [U (a - b)] else Err) /\
+  opMul a b = (if a * b <? W then Ok [U (a * b)] else Err) /\
+  opDiv a b = (if b =? 0 then Err else Ok [U (a / b)]) /\
+  opModulo a b = (if b =? 0 then Err else Ok [U (a mod b)]).
+Proof. exact basic_arith_spec. Qed.
+Print Assumptions C32_basic_arith.
+
+Theorem C32_addw_mulw : forall a b, a < W -> b < W ->
+  (exists hi lo, opAddw a b = Ok [U hi; U lo] /\ hi * W + lo = a + b /\ lo < W /\ hi <= 1) /\
+  (exists hi lo, opMulw a b = Ok [U hi; U lo] /\ hi * W + lo = a * b /\ lo < W /\ hi < W).
+Proof. exact wide_add_mul_spec. Qed.
+Print Assumptions C32_addw_mulw.
+
+(* divw fails exactly on a zero divisor or a quotient that does not fit in 64 bits *)
+Theorem C32_divw : forall hi lo y, hi < W -> lo < W -> y < W ->
+  opDivw hi lo y =
+  if y =? 0 then Err
+  else if (hi * W + lo) / y <? W then Ok [U ((hi * W + lo) / y)] else Err.
+Proof. exact divw_spec. Qed.
+Print Assumptions C32_divw.
+
+Theorem C32_divmodw : forall a b c d, a < W -> b < W -> c < W -> d < W ->
+  (c * W + d = 0 -> opDivModw a b c d = Err) /\
+  (c * W + d <> 0 ->
+   exists qh ql rh rl, opDivModw a b c d = Ok [U qh; U ql; U rh; U rl] /\
+     qh < W /\ ql < W /\ rh < W /\ rl < W /\
+     (qh * W + ql) * (c * W + d) + (rh * W + rl) = a * W + b /\ rh * W + rl < c * W + d).
+Proof. exact divmodw_full_spec. Qed.
+Print Assumptions C32_divmodw.
+
+Theorem C32_shifts : forall a s,
+  opShiftLeft a s = (if 63 <? s then Err else Ok [U ((a * 2 ^ s) mod W)]) /\
+  opShiftRight a s = (if 63 <? s then Err else Ok [U (a / 2 ^ s)]).
+Proof. exact shifts_spec. Qed.
+Print Assumptions C32_shifts.
+
+(* Crenshaw's 32-iteration loop is the integer square root for EVERY 64-bit x: proved with the
+   loop invariant sqrt_inv (second conjunct: it is preserved by one iteration), not by a sweep *)
+Theorem C32_sqrt :
+  (forall x, x < W -> opSqrt x = Ok [U (N.sqrt x)]) /\
+  (forall x k st, x < W -> sqrt_inv x (S k) st -> sqrt_inv x k (sqrt_step st)).
+Proof. exact sqrt_full_spec. Qed.
+Print Assumptions C32_sqrt.
+
+(* exp / expw: 0^0 fails; otherwise success exactly when base^exp < 2^64 (resp. 2^128) *)
+Theorem C32_exp_expw : forall a e, a < W -> e < W ->
+  opExp a e = (if (a =? 0) && (e =? 0) then Err
+               else if a ^ e <? W then Ok [U (a ^ e)] else Err) /\
+  opExpw a e = (if (a =? 0) && (e =? 0) then Err
+                else if a ^ e <? 2 ^ 128 then Ok [U (a ^ e / W); U (a ^ e mod W)] else Err).
+Proof. exact exp_expw_spec. Qed.
+Print Assumptions C32_exp_expw.
+
+(* bitlen on both operand types; bitlen_of n is THE bit length (third conjunct) *)
+Theorem C32_bitlen :
+  (forall a, opBitLen (U a) = Ok [U (bitlen_of a)]) /\
+  (forall l, bytes_wf l -> opBitLen (B l) = Ok [U (bitlen_of (be_val l))]) /\
+  (forall n k, bitlen_of n = k <-> (n < 2 ^ k /\ (k = 0 \/ 2 ^ (k - 1) <= n))).
+Proof. exact bitlen_full_spec. Qed.
+Print Assumptions C32_bitlen.
+
+Theorem C32_compare_bitnot : forall a b, a < W ->
+  lt_v a b = b2u (a <? b) /\ gt_v a b = b2u (b <? a) /\
+  le_v a b = b2u (a <=? b) /\ ge_v a b = b2u (b <=? a) /\
+  opBitNot a = Ok [U (W - 1 - a)].
+Proof. exact compare_not_spec. Qed.
+Print Assumptions C32_compare_bitnot.
+
+Theorem C32_getbit_setbit_uint : forall t i b,
+  opGetBit (U t) i = (if 63 <? i then Err else Ok [U (b2u (N.testbit t i))]) /\
+  opSetBit (U t) i b =
+  (if 1 <? b then Err else if 63 <? i then Err
+   else Ok [U (if b =? 1 then (if N.testbit t i then t else t + 2 ^ i)
+               else (if N.testbit t i then t - 2 ^ i else t))]).
+Proof. exact bits_uint_spec. Qed.
+Print Assumptions C32_getbit_setbit_uint.
+
+(* ---------------- conversions ---------------- *)
+(* btoi = big-endian value, fails iff longer than 8 bytes; itob = the 8-byte encoding;
+   they are mutually inverse *)
+Theorem C32_btoi_itob :
+  (forall l, bytes_wf l -> opBtoi l = if 8 <? blen l then Err else Ok [U (be_val l)]) /\
+  (forall a, a < W -> exists l, opItob a = Ok [B l] /\ be_val l = a /\ bytes_wf l /\ length l = 8%nat) /\
+  (forall a, a < W -> forall l, opItob a = Ok [B l] -> opBtoi l = Ok [U a]) /\
+  (forall l, bytes_wf l -> length l = 8%nat ->
+     exists a, opBtoi l = Ok [U a] /\ a < W /\ opItob a = Ok [B l]).
+Proof. exact conversions_spec. Qed.
+Print Assumptions C32_btoi_itob.
+
+Theorem C32_extract_uint : forall n l s, bytes_wf l -> (n <= 8)%nat -> s < W -> blen l + 8 < W ->
+  opExtractNBytes (N.of_nat n) l s =
+  if blen l <? s + N.of_nat n then Err
+  else Ok [U (be_val (slice l s (N.of_nat n) n))].
+Proof. exact extract_uint_spec. Qed.
+Print Assumptions C32_extract_uint.
+
+(* ---------------- byte math ---------------- *)
+(* big.Int.SetBytes decodes big-endian; big.Int.Bytes is THE minimal big-endian encoding
+   (right value, bytes in range, no leading zero byte) *)
+Theorem C32_bytes_codec :
+  (forall l, setbytes l = be_val l) /\
+  (forall n, be_val (bigbytes n) = n /\ bytes_wf (bigbytes n) /\ hd 1 (bigbytes n) <> 0).
+Proof. exact bytes_codec_spec. Qed.
+Print Assumptions C32_bytes_codec.
+
+(* result = minimal encoding of the exact integer result; error iff an operand is longer than
+   64 bytes / the difference is negative / the divisor is zero *)
+Theorem C32_bytes_arith : forall a b,
+  opBytesPlus a b = guard64 a b (Ok [B (bigbytes (be_val a + be_val b))]) /\
+  opBytesMinus a b =
+    guard64 a b (if be_val a <? be_val b then Err else Ok [B (bigbytes (be_val a - be_val b))]) /\
+  opBytesMul a b = guard64 a b (Ok [B (bigbytes (be_val a * be_val b))]) /\
+  opBytesDiv a b =
+    guard64 a b (if be_val b =? 0 then Err else Ok [B (bigbytes (be_val a / be_val b))]) /\
+  opBytesModulo a b =
+    guard64 a b (if be_val b =? 0 then Err else Ok [B (bigbytes (be_val a mod be_val b))]) /\
+  opBytesSqrt a = (if 64 <? blen a then Err else Ok [B (bigbytes (N.sqrt (be_val a)))]).
+Proof. exact bytes_arith_spec. Qed.
+Print Assumptions C32_bytes_arith.
+
+(* b< b> b<= b>= b== b!= compare the NUMBERS (leading zeros irrelevant) *)
+Theorem C32_bytes_compare : forall a b, bytes_wf a -> bytes_wf b ->
+  opBytesLt a b = guard64 a b (Ok [U (b2u (be_val a <? be_val b))]) /\
+  opBytesGt a b = guard64 a b (Ok [U (b2u (be_val b <? be_val a))]) /\
+  opBytesLe a b = guard64 a b (Ok [U (b2u (be_val a <=? be_val b))]) /\
+  opBytesGe a b = guard64 a b (Ok [U (b2u (be_val b <=? be_val a))]) /\
+  opBytesEq a b = guard64 a b (Ok [U (b2u (be_val a =? be_val b))]) /\
+  opBytesNeq a b = guard64 a b (Ok [U (b2u (negb (be_val a =? be_val b)))]).
+Proof. exact bcmp_spec. Qed.
+Print Assumptions C32_bytes_compare.
+
+(* b| b& b^ b~ : bitwise on the numbers, result as long as the longer operand *)
+Theorem C32_bytes_bitwise : forall a b, bytes_wf a -> bytes_wf b ->
+  (exists l, opBytesBitOr a b = Ok [B l] /\ be_val l = N.lor (be_val a) (be_val b) /\
+             bytes_wf l /\ length l = Nat.max (length a) (length b)) /\
+  (exists l, opBytesBitAnd a b = Ok [B l] /\ be_val l = N.land (be_val a) (be_val b) /\
+             bytes_wf l /\ length l = Nat.max (length a) (length b)) /\
+  (exists l, opBytesBitXor a b = Ok [B l] /\ be_val l = N.lxor (be_val a) (be_val b) /\
+             bytes_wf l /\ length l = Nat.max (length a) (length b)) /\
+  (exists l, opBytesBitNot a = Ok [B l] /\ be_val l = 2 ^ (8 * blen a) - 1 - be_val a /\
+             bytes_wf l /\ length l = length a).
+Proof. exact bytes_bitwise_spec. Qed.
+Print Assumptions C32_bytes_bitwise.
+
+(* bit idx of a byte string is bit (8*len - 1 - idx) of the number it denotes *)
+Theorem C32_getbit_setbit_bytes : forall l idx bit, bytes_wf l ->
+  opGetBit (B l) idx =
+    (if 8 * blen l <=? idx then Err
+     else Ok [U (b2u (N.testbit (be_val l) (8 * blen l - 1 - idx)))]) /\
+  ((1 <? bit) || (8 * blen l <=? idx) = true -> opSetBit (B l) idx bit = Err) /\
+  (bit <= 1 -> idx < 8 * blen l ->
+   let v := be_val l in let k := 8 * blen l - 1 - idx in
+   exists l', opSetBit (B l) idx bit = Ok [B l'] /\
+     be_val l' = (if bit =? 1 then (if N.testbit v k then v else v + 2 ^ k)
+                  else (if N.testbit v k then v - 2 ^ k else v)) /\
+     bytes_wf l' /\ length l' = length l).
+Proof. exact bits_bytes_spec. Qed.
+Print Assumptions C32_getbit_setbit_bytes.
+
+Theorem C32_getbyte_setbyte : forall l i v,
+  opGetByte l i = (if blen l <=? i then Err else Ok [U (byte_at l i)]) /\
+  opSetByte l i v =
+    (if 255 <? v then Err else if blen l <=? i then Err else Ok [B (replace_at l i v)]).
+Proof. exact byte_access_spec. Qed.
+Print Assumptions C32_getbyte_setbyte.
+
+(* ---------------- the whole table against the executable specification ---------------- *)
+(* every opcode of the table, all well-formed operands (64-bit words, byte strings of at most
+   4096 bytes): the model's outcome satisfies the specification's expected outcome *)
+Theorem C32_all_opcodes : forall o args m e,
+  Forall wf_arg args -> run o args = Some m -> spec o args = Some e -> sat e m.
+Proof. exact run_sat_spec. Qed.
+Print Assumptions C32_all_opcodes.
+
+(* the specification's bounded power is the real power (it is executable for every exponent) *)
+Theorem C32_spec_power : forall bits a e, 0 < bits ->
+  pow_capped bits a e = if a ^ e <? 2 ^ bits then Some (a ^ e) else None.
+Proof. exact pow_capped_spec. Qed.
+Print Assumptions C32_spec_power.
+
+(* the executable comparison used on observations decides the declarative relation *)
+Theorem C32_meets_sat : forall e r, meets e r = true <-> sat e r.
+Proof. exact meets_sat. Qed.
+Print Assumptions C32_meets_sat.
+
+(* soundness of the checker: a non-violation verdict means the IMPLEMENTATION's observation
+   satisfies the specification (and equals the model) *)
+Theorem C32_check_sound : forall name ver mode targs tobs,
+  check (TL [TS name; TZ ver; TS mode; TL targs; tobs]) = v_ok \/
+  check (TL [TS name; TZ ver; TS mode; TL targs; tobs]) = v_triv ->
+  exists o args r e,
+    lookup_op name op_table = Some o /\ map_opt sv_of_term targs = Some args /\
+    obs_of_term tobs = Some (ORes r) /\ Forall wf_arg args /\
+    spec o args = Some e /\ sat e r /\ run o args = Some r.
+Proof. exact check_sound. Qed.
+Print Assumptions C32_check_sound.
+
+(* and no false alarm: whatever behaves like the model is accepted *)
+Theorem C32_check_no_false_alarm : forall name o ver mode args m,
+  lookup_op name op_table = Some o -> Forall wf_arg args -> run o args = Some m ->
+  check (TL [TS name; TZ ver; TS mode; TL (map term_of_sv args); term_of_res m]) = v_ok \/
+  check (TL [TS name; TZ ver; TS mode; TL (map term_of_sv args); term_of_res m]) = v_triv.
+Proof. exact check_no_false_alarm. Qed.
+Print Assumptions C32_check_no_false_alarm.
+
+(* ---------------- anti-vacuity: concrete instances on both sides of every boundary ---------------- *)
+Example C32_nonvacuous_uint :
+  opSqrt (2 ^ 64 - 1) = Ok [U 4294967295] /\ opSqrt (4294967295 * 4294967295 - 1) = Ok [U 4294967294] /\
+  opExp 2 63 = Ok [U (2 ^ 63)] /\ opExp 2 64 = Err /\ opExp 0 0 = Err /\ opExp 0 5 = Ok [U 0] /\
+  opExp 1 (2 ^ 64 - 1) = Ok [U 1] /\ opExp 4294967296 2 = Err /\ opExp 4294967295 2 = Ok [U 18446744065119617025] /\
+  opExpw 2 127 = Ok [U (2 ^ 63); U 0] /\ opExpw 2 128 = Err /\
+  opPlus (2 ^ 64 - 1) 1 = Err /\ opMinus 0 1 = Err /\ opMul (2 ^ 32) (2 ^ 32) = Err /\
+  opDivw 1 0 1 = Err /\ opDivw 1 0 2 = Ok [U (2 ^ 63)] /\
+  opDivModw 0 0 0 0 = Err /\ opDivModw 1 5 0 2 = Ok [U 0; U (2 ^ 63 + 2); U 0; U 1] /\
+  opShiftLeft 3 63 = Ok [U (2 ^ 63)] /\ opShiftLeft 1 64 = Err.
+Proof. vm_compute. repeat split. Qed.
+
+Example C32_nonvacuous_bytes :
+  opBytesPlus [255] [1] = Ok [B [1; 0]] /\ opBytesMinus [1] [2] = Err /\ opBytesMinus [0; 7] [7] = Ok [B []] /\
+  opBytesDiv [9] [0; 0] = Err /\ opBytesPlus (repeat 0 65) [1] = Err /\
+  opBytesLt [0; 0; 1] [2] = Ok [U 1] /\ opBytesEq [0; 5] [5] = Ok [U 1] /\
+  opBytesBitOr [1; 0] [2] = Ok [B [1; 2]] /\ opBytesBitNot [0; 255] = Ok [B [255; 0]] /\
+  opBtoi [1; 0; 0; 0; 0; 0; 0; 0; 0] = Err /\ opItob 258 = Ok [B [0; 0; 0; 0; 0; 0; 1; 2]] /\
+  opGetBit (B [128; 1]) 0 = Ok [U 1] /\ opGetBit (B [128; 1]) 15 = Ok [U 1] /\ opGetBit (B [128; 1]) 16 = Err /\
+  opSetBit (B [0; 0]) 9 1 = Ok [B [0; 64]] /\
+  opExtractNBytes 2 [1; 2; 3] 1 = Ok [U 515] /\ opExtractNBytes 2 [1; 2; 3] 2 = Err /\
+  opExtractNBytes 8 [1; 2; 3] (2 ^ 64 - 1) = Err.
+Proof. vm_compute. repeat split. Qed.
+
+(* the hypotheses of C32_all_opcodes are met by concrete operands, with a non-trivial outcome;
+   the oracle rejects the same value in a non-minimal encoding *)
+Example C32_all_opcodes_instance :
+  Forall wf_arg [B [1; 0; 0]; B [255; 255]] /\
+  run OBMul [B [1; 0; 0]; B [255; 255]] = Some (Ok [B [255; 255; 0; 0]]) /\
+  spec OBMul [B [1; 0; 0]; B [255; 255]] = Some (XBmin 4294901760) /\
+  meets (XBmin 4294901760) (Ok [B [255; 255; 0; 0]]) = true /\
+  meets (XBmin 4294901760) (Ok [B [0; 255; 255; 0; 0]]) = false.
+Proof.
+  split; [|vm_compute; repeat split].
+  repeat constructor; vm_compute; reflexivity || (intro; discriminate).
+Qed.
